@@ -1,23 +1,178 @@
+// mcpcheck: repository-specific static analyser for modelcontextprotocol/go-sdk.
+// See /verif/DESIGN.md. Usage: mcpcheck -property C01 [-tier quick|thorough] [-repo /repo] [-root /verif]
 package main
 
 import (
+	"flag"
 	"fmt"
-	"golang.org/x/tools/go/packages"
-	"golang.org/x/tools/go/cfg"
-	"golang.org/x/tools/go/ssa"
-	"golang.org/x/tools/go/ssa/ssautil"
-	"golang.org/x/tools/go/callgraph/vta"
-	"golang.org/x/tools/go/callgraph/cha"
-	"golang.org/x/tools/go/types/typeutil"
+	"go/types"
+	"os"
+	"os/exec"
+	"sort"
+	"strconv"
+	"strings"
+	"time"
 )
 
-var _ = cfg.New
-var _ = ssa.BuilderMode(0)
-var _ = ssautil.AllFunctions
-var _ = vta.CallGraph
-var _ = cha.CallGraph
-var _ = typeutil.Callee
+type (
+	funcObj  = types.Func
+	fieldObj = types.Var
+	objT     = types.Object
+)
+
+type property struct {
+	id    string
+	rules func(*Ctx)
+	// deep rules need the whole-program SSA/VTA graph; run in the thorough tier only.
+	deep func(*Ctx)
+}
+
+var registry = map[string]*property{}
+
+func register(id string, rules func(*Ctx), deep func(*Ctx)) {
+	registry[id] = &property{id, rules, deep}
+}
 
 func main() {
-	fmt.Println(packages.LoadAllSyntax)
+	prop := flag.String("property", "", "property id (C01..C20) or 'all'")
+	tier := flag.String("tier", envOr("VERIF_TIER", "quick"), "quick|thorough")
+	repo := flag.String("repo", envOr("VERIF_REPO", "/repo"), "repository root")
+	root := flag.String("root", envOr("VERIF_ROOT", "/verif"), "verif root (evidence, known findings)")
+	list := flag.Bool("list", false, "print every obligation")
+	noEvidence := flag.Bool("no-evidence", false, "do not write evidence (used for mutant runs)")
+	explain := flag.String("explain", "", "re-run the obligation recorded in a violation file")
+	flag.Parse()
+	seed, _ := strconv.ParseInt(envOr("VERIF_SEED", "0"), 10, 64)
+
+	if *explain != "" {
+		os.Exit(doExplain(*explain, *repo, *root))
+	}
+	if *prop == "" {
+		fmt.Println("usage: mcpcheck -property Cxx [-tier quick|thorough]")
+		os.Exit(2)
+	}
+	ids := []string{*prop}
+	if *prop == "all" {
+		ids = nil
+		for id := range registry {
+			ids = append(ids, id)
+		}
+		sort.Strings(ids)
+	}
+	start := time.Now()
+	before := repoStatus(*repo)
+	p, err := Load(*repo, *tier == "thorough")
+	if err != nil {
+		fmt.Printf("load failure: %v\n", err)
+		for _, id := range ids {
+			fmt.Printf("VIOLATION property=%s replay=%s kind=load-failure\n", id, *repo)
+		}
+		os.Exit(1)
+	}
+	code := 0
+	for _, id := range ids {
+		pr := registry[id]
+		if pr == nil {
+			fmt.Printf("unknown property %s\n", id)
+			os.Exit(2)
+		}
+		t0 := time.Now()
+		c := newCtx(p, id, *tier)
+		pr.rules(c)
+		extra := map[string]any{}
+		var sens *sensitivity
+		if *tier == "thorough" {
+			if pr.deep != nil {
+				pr.deep(c)
+			}
+			cfgs := altConfigs(c, *repo)
+			extra["alternate_build_configs"] = cfgs
+			if !*noEvidence {
+				sens = runMutants(id, *repo, *root)
+			}
+		}
+		if *list {
+			for _, o := range c.Obls {
+				fmt.Printf("  %-9s %-11s %-60s %s  %s\n", o.Rule, o.Verdict, o.Key, o.Pos, o.Detail)
+			}
+		}
+		if *noEvidence {
+			n := 0
+			for _, o := range c.Obls {
+				if o.Verdict != vOK {
+					n++
+					fmt.Printf("MUTANT-REPORT %s %s %s [%s] %s %s\n", id, o.Rule, o.Key, o.Verdict, o.Pos, o.Detail)
+				}
+			}
+			if n > 0 {
+				code = 1
+			}
+			continue
+		}
+		wall := time.Since(t0).Seconds()
+		if len(ids) == 1 {
+			wall = time.Since(start).Seconds()
+		}
+		if rc := c.finish(*root, seed, wall, sens, extra); rc != 0 {
+			code = rc
+		}
+	}
+	if after := repoStatus(*repo); after != before {
+		fmt.Printf("the check modified %s (git status changed):\n%s\n", *repo, after)
+		code = 1
+	}
+	os.Exit(code)
+}
+
+func envOr(k, d string) string {
+	if v := os.Getenv(k); v != "" {
+		return v
+	}
+	return d
+}
+
+func repoStatus(repo string) string {
+	out, err := exec.Command("git", "-C", repo, "status", "--short").Output()
+	if err != nil {
+		return "" // not a git checkout (scratch copy)
+	}
+	return string(out)
+}
+
+func doExplain(path, repo, root string) int {
+	b, err := os.ReadFile(path)
+	if err != nil {
+		fmt.Println(err)
+		return 2
+	}
+	fmt.Println(string(b))
+	// Re-run the owning property and print only the matching obligation.
+	s := string(b)
+	i := strings.Index(s, `"property": "`)
+	if i < 0 {
+		return 2
+	}
+	id := s[i+13 : i+16]
+	p, err := Load(repo, false)
+	if err != nil {
+		fmt.Println(err)
+		return 1
+	}
+	pr := registry[id]
+	if pr == nil {
+		return 2
+	}
+	c := newCtx(p, id, "quick")
+	pr.rules(c)
+	rc := 0
+	for _, o := range c.Obls {
+		if o.Verdict != vOK && strings.Contains(s, `"key": "`+o.Key+`"`) && strings.Contains(s, `"rule": "`+o.Rule+`"`) {
+			fmt.Printf("re-run: %s %s %s [%s] %s\n", o.Pos, o.Rule, o.Key, o.Verdict, o.Detail)
+			rc = 1
+		}
+	}
+	if rc == 0 {
+		fmt.Println("re-run: the obligation is discharged on the current tree")
+	}
+	return rc
 }
